@@ -11,7 +11,6 @@
     fits Py_ssize_t". *)
 From Coq Require Import ZArith List Bool.
 From GV Require Import Spec.C20 Model.C20 Proofs.C20Slice Proofs.C20Arr Proofs.C20.
-From GV Require Base.CSem Gen.PyC20 Proofs.PyTieC20.
 Import ListNotations.
 Open Scope Z_scope.
 
@@ -79,11 +78,3 @@ Theorem C20_index_array_old_ok_when_fits : forall c dt xs,
   getitem false c (PInts dt xs) = getitem true c (PInts dt xs).
 Proof. exact C20_old_ok_when_fits_l. Qed.
 Print Assumptions C20_index_array_old_ok_when_fits.
-
-(** syntactic tie: AdvancedIndexingMixin._check_index as translated from the Python text by tools/py2v.py is
-    the model's [check_index] (None = IndexError) *)
-Theorem C20_tie_check_index : forall i n,
-  PyC20.py_check_index i n =
-    match Model.C20.check_index n i with Some p => CSem.Ok p | None => CSem.Error CSem.IndexError end.
-Proof. exact PyTieC20.tie_check_index. Qed.
-Print Assumptions C20_tie_check_index.
